@@ -6,12 +6,13 @@ from .solve import discharge, hyps_consistent
 
 def main():
     mod = importlib.import_module(sys.argv[1])
-    keys = [a for a in sys.argv[2:] if not a.startswith('-')] or list(mod.CONTRACTS)
+    keys = [a for a in sys.argv[2:] if not a.startswith('-')] or [k for k, c in mod.CONTRACTS.items() if not c.get('axiom')]
     src = Source()
     from . import registry
     reg = registry.load()
     ex = Executor(src, reg.contracts, reg.models, reg.spec_funcs(src))
     ex.opq_model_table = reg.opq_models
+    ex.spec_ufs = reg.spec_ufs
     t0 = time.time(); tot = bad = 0
     for key in keys:
         c = mod.CONTRACTS[key]
